@@ -34,6 +34,8 @@ type Opts struct {
 	Hosts       []*host.Host
 	Port        uint32
 	Name        string
+	// ConnectTimeout of the service (default 300 ms)
+	ConnectTimeout time.Duration
 }
 
 // Proxy is a real samaritan TCP processor.
@@ -47,6 +49,9 @@ type Proxy struct {
 // Config builds the service config.
 func Config(o Opts) *service.Config {
 	ct := 300 * time.Millisecond
+	if o.ConnectTimeout > 0 {
+		ct = o.ConnectTimeout
+	}
 	idle := o.IdleTimeout
 	if idle == 0 {
 		idle = 10 * time.Minute
@@ -93,9 +98,9 @@ func Start(o Opts) (*Proxy, error) {
 		statpurge.MarkStopped(px.Name)
 		return nil, err
 	}
-	if !px.WaitListening(2 * time.Second) {
+	if !px.WaitListening(20 * time.Second) {
 		go px.Stop(30 * time.Second)
-		return nil, errors.New("tcp proxy did not start listening within 2s")
+		return nil, errors.New("tcp proxy did not start listening within 20s")
 	}
 	return px, nil
 }
